@@ -127,6 +127,63 @@ sw_ctx = dict(cls='', members=[], raii=RAII_RF, pre=[
 ])
 
 
+# ---------------------------------------------------------------------------------------------------------------------
+# second batch of call sites: _rec (await_transform.hpp), _rcvr_wrapper::set_next, connect_awaitable.hpp, at_coroutine_exit.hpp
+# ---------------------------------------------------------------------------------------------------------------------
+CA = 'include/unifex/connect_awaitable.hpp'
+ACE = 'include/unifex/at_coroutine_exit.hpp'
+REC_T = r'struct _rec \{'
+CA_NS = r'namespace _await \{'
+CPB_T = r'struct _cleanup_promise_base \{'
+CPR_T = r'struct _cleanup_promise : _cleanup_promise_base<WithAsyncStackSupport> \{'
+CT_T = r'struct \[\[nodiscard\]\] _cleanup_task \{'
+# `return f();` with f returning void (general rule missing from the table: the RAII exit rule needs a value to save)
+RET_VOID = [(r'return (continuation_\.resume(?:_done)?\(\));', r'{ \1; return; }')]
+# local ScopedAsyncStackRoot -> the window's scoped root SR; local AsyncStackFrame (the dummy frame of _rec::set_done) -> F1.
+# dict order = destruction order at scope exit (root first, then the frame: reverse order of declaration)
+rec_ctx = dict(cls='rec', members=['result_', 'continuation_'], methods=['complete'], enums={'_state': 'STATE'},
+               raii={'ScopedAsyncStackRoot': ('VF_SR_CTOR', 'VF_SR_DTOR'), 'AsyncStackFrame': ('VF_DUMMY_CTOR', 'VF_DUMMY_DTOR')},
+               pre=RET_VOID + [
+    (r'get_async_stack_frame\(continuation_\.promise\(\)\)', 'EV_promise_frame(this)'),
+    (r'root\.activateFrame\(frame\);', 'root.activateFrame(&frame);'),
+    (r'root\.activateFrame\(\*frame\);', 'root.activateFrame(frame);'),
+    (r'setParentFrame\(\*(\w+)\)', r'setParentFrame(\1)'),
+    (r'continuation_\.resume\(\)', 'EV_resume_continuation(this, 0)'),
+    (r'continuation_\.resume_done\(\)', 'EV_resume_continuation(this, 1)'),
+    (r'unifex::activate_union_member\(result_->value_, \(Us&&\)us\.\.\.\);', 'if (EV_activate_member(this, STATE_value)) return;'),
+    (r'unifex::activate_union_member\(result_->exception_, std::move\(eptr\)\);', 'EV_activate_member(this, STATE_exception);'),
+    (r'(?s)std::move\(\*this\)\.set_error\(\s*std::make_exception_ptr\(std::system_error\{code\}\)\);', 'rec_set_error(this);'),
+], obj_methods={'setParentFrame': 'AsyncStackFrame_setParentFrame'}, post=[(r'&root\b', '&SR'), (r'&frame\b', '&F1')])
+# the frame_ member of a promise (sender_task: F0; cleanup promise: F1) and the members reached through the coroutine handle
+stp_ctx = dict(cls='sender_task_promise', members=[], pre=[
+    (r'deactivateAsyncStackFrame\(h\.promise\(\)\.frame_\);', 'deactivateAsyncStackFrame(&frame_);'),
+    (r'(popAsyncStackFrameFromCaller|deactivateAsyncStackFrame)\(frame_\);', r'\1(&frame_);'),
+    (r'std::forward<Func>\(func_\)\(\);', 'EV_yield_func(this);'),
+    (r'unifex::set_done\(std::move\(receiver_\)\);', 'EV_promise_set_done(this);'),
+], obj_methods={'setReturnAddress': 'AsyncStackFrame_setReturnAddress'}, post=[(r'(?<![\w.>])frame_\b', 'PROMISE_FRAME')])
+st_ctx = dict(cls='sender_task', members=[], raii={'ScopedAsyncStackRoot': ('VF_SR_CTOR', 'VF_SR_DTOR')}, pre=[
+    (r'&coro_\.promise\(\)\.frame_', 'VF_TASK_FRAME(this)'),
+    (r'get_async_stack_frame\(coro_\.promise\(\)\.receiver_\)', 'EV_task_parent_frame(this)'),
+    (r'setParentFrame\(\*(\w+)\)', r'setParentFrame(\1)'),
+    (r'root\.activateFrame\(\*frame\);', 'root.activateFrame(frame);'),
+    (r'coro_\.resume\(\);', 'EV_task_resume(this);'),
+], obj_methods={'setParentFrame': 'AsyncStackFrame_setParentFrame', 'ensureFrameDeactivated': 'ScopedAsyncStackRoot_ensureFrameDeactivated'},
+    post=[(r'&root\b', '&SR')])
+cp_ctx = dict(cls='cleanup_promise', members=[], pre=[
+    (r'popAsyncStackFrameCallee\(h\.promise\(\)\.frame_\);', 'popAsyncStackFrameCallee(&CLEANUP_FRAME);'),
+    (r'h\.promise\(\)\.next\(\)', 'EV_cleanup_next(h)'),
+    (r'h\.promise\(\)\.', 'CP.'),
+    (r'h\.destroy\(\);', 'EV_cleanup_destroy(h);'),
+    (r'pushAsyncStackFrameCallerCallee\(\*this->parentFrame_, this->frame_\);', 'pushAsyncStackFrameCallerCallee(this->parentFrame_, &CLEANUP_FRAME);'),
+    (r'return unifex::await_transform\(\*this, _die_on_done_fn\{\}\(\(Value&&\)value\)\);', 'return EV_cleanup_await_transform(this);'),
+    (r'continuation_\.promise\(\)\.frame_', 'CLEANUP_FRAME'),
+    (r'continuation_\.promise\(\)\.', 'CP.'),
+    (r'exchange_continuation\(parent, continuation_\)', 'EV_exchange_continuation(this)'),
+    (r'get_scheduler\(parent\)', 'EV_get_scheduler(this)'),
+    (r'get_async_stack_frame\(parent\)', 'EV_promise_frame(this)'),
+], obj_methods={'setReturnAddress': 'AsyncStackFrame_setReturnAddress'})
+
+
 # type-level fact, checked TEXTUALLY: the noexcept-specification of _op_wrapper's constructor
 def _norm(t):
     import re as _re
@@ -235,6 +292,28 @@ SPEC = dict(
         'nx_has_nothrow_invocable': _nx(lambda t: NX_A in t),
         'nx_has_nothrow_constructible': _nx(lambda t: NX_B in t),
         'nx_is_conjunction': _nx(lambda t: t in (NX_A + '&&' + NX_B, NX_B + '&&' + NX_A)),
+        # ---- second batch: await_transform.hpp _rec
+        'state_enum': dict(file=AT, kind='expr', sig=r'enum class _state \{([^}]*)\}', ctx=dict(pre=[(r'\b([a-z]\w*)\b', r'STATE_\1')])),
+        'rec_complete': dict(file=AT, sig=r'void complete\(\) noexcept', within=[AT_NS, REC_T], ctx=rec_ctx),
+        'rec_set_value': dict(file=AT, sig=r'(?s)void set_value\(Us&&\.\.\. us\) && noexcept\(.*?std::is_void_v<Value>\)\s*\{', within=[AT_NS, REC_T], ctx=rec_ctx),
+        'rec_set_error': dict(file=AT, sig=r'void set_error\(std::exception_ptr eptr\) && noexcept', within=[AT_NS, REC_T], ctx=rec_ctx),
+        'rec_set_error_code': dict(file=AT, sig=r'void set_error\(std::error_code code\) && noexcept', within=[AT_NS, REC_T], ctx=rec_ctx),
+        'rec_set_done': dict(file=AT, sig=r'void set_done\(\) && noexcept', within=[AT_NS, REC_T], ctx=rec_ctx),
+        # ---- second batch: inject_async_stack.hpp _rcvr_wrapper::set_next (may throw: the RAII exit rule runs the destructor on the unwinding path)
+        'rcvw_set_next': dict(file=INJ, sig=r'(?s)set_next\(T&&\.\.\. ts\) noexcept\(is_nothrow_next_receiver_v<Receiver, T\.\.\.>\)\s*\{', within=RCVW_T,
+                              ctx=dict(cls='rcvr_wrapper', members=[], raii=RAII_RF, pre=[
+            (r'_root_and_frame rf\(get_async_stack_frame\(receiver\(\)\)\);', 'vf_rf_arg = EV_get_async_stack_frame(this); _root_and_frame rf;'),
+            (r'unifex::set_next\(receiver\(\), std::forward<T>\(ts\)\.\.\.\);', 'if (EV_wrapped_set_next(this)) return;'),
+        ])),
+        # ---- second batch: connect_awaitable.hpp (plain member functions of the sender_task and its promise)
+        'stp_ctor': dict(file=CA, sig=r'(?s)explicit promise_type\(.*?returnAddress\) noexcept\s*:\s*receiver_\(r\)\s*\{', within=CA_NS, ctx=stp_ctx),
+        'stp_await_suspend': dict(file=CA, sig=r'(?s)void await_suspend\(coro::coroutine_handle<promise_type> h\) noexcept\(\s*std::is_nothrow_invocable_v<Func>\)\s*\{', within=CA_NS, ctx=stp_ctx),
+        'stp_done': dict(file=CA, sig=r'done_coro doneCoro_ = unifex::unhandled_done\(\[this\]\(\) noexcept ', within=CA_NS, ctx=stp_ctx),
+        'st_start': dict(file=CA, sig=r'void start\(\) & noexcept', within=CA_NS, ctx=st_ctx),
+        # ---- second batch: at_coroutine_exit.hpp
+        'cp_final_suspend': dict(file=ACE, sig=r'(?s)coro::coroutine_handle<> await_suspend_impl\(\s*coro::coroutine_handle<CleanupPromise> h\) const noexcept', within=CPB_T, ctx=cp_ctx),
+        'cp_await_transform': dict(file=ACE, sig=r'(?s)decltype\(auto\) await_transform\(Value&& value\) noexcept\(noexcept\(.*?value\)\)\)\) \{', within=CPR_T, ctx=cp_ctx),
+        'cp_awaiter_suspend': dict(file=ACE, sig=r'(?s)bool await_suspend_impl_\(.*?read_return_address\(\)\) noexcept', within=CT_T, ctx=cp_ctx),
         # ---- call sites: sync_wait.hpp
         'isr_root_init': dict(file=SW, kind='expr', sig=r':\s*root\{(frameAddress, returnAddress)\}'),
         'isr_ctor': dict(file=SW, sig=r'explicit initial_stack_root\b', ctx=isr_ctx),
